@@ -47,6 +47,7 @@ type Report struct {
 	CallSites   int
 	Extra       map[string]any
 	MinCounts   map[string]int // rule -> frozen minimum number of obligations
+	RuleDefs    map[string]string
 	Fatal       []string
 }
 
@@ -213,9 +214,25 @@ func (r *Report) Finish() int {
 		funcs = append(funcs, f)
 	}
 	sort.Strings(funcs)
+	// the rule text names every rule that produced an obligation in this run
+	ruleText := r.RuleText
+	if r.RuleDefs != nil {
+		var names []string
+		for n := range counts {
+			names = append(names, n)
+		}
+		sort.Strings(names)
+		var parts []string
+		for _, n := range names {
+			if d, ok := r.RuleDefs[n]; ok {
+				parts = append(parts, n+": "+d)
+			}
+		}
+		ruleText = "Obligations are enumerated from the type-checked SSA form of the current tree, one per rule instance and construct (key rule|function|site; site = canonical condition, region or call descriptor built from resolved callees, parameter indices, field names, constants). Distinct = distinct keys; non-trivial = deciding it needed at least one branch, store, call summary or dataflow fact (anchor/bookkeeping obligations are trivial). Rules in this run — " + strings.Join(parts, " | ")
+	}
 	cov := map[string]any{
 		"explanation":            r.Explanation,
-		"rule":                   r.RuleText,
+		"rule":                   ruleText,
 		"obligations":            len(r.Obls),
 		"discharged":             discharged,
 		"evaluations":            len(r.Obls),
